@@ -156,6 +156,14 @@ func genC18(t *rapid.T, tier string) (*World, any) {
 		putRoot(w, "crs/regex-assembly-plugins/inner", "innerplug")
 		putRoot(w, "crs/regex-assembly/vendored", "vendored")
 		w.Dirs = append(w.Dirs, "empty/x/y", "crs/util/a/nested/deep/er")
+		if chance(t, 50, "checkouts") {
+			// other checkouts inside the tree (a plugin repository, a submodule, the root's own .git): the rule looks for regex-assembly only
+			w.Put("crs/.git/HEAD", "ref: refs/heads/main\n")
+			w.Put("crs/util/a/.git/HEAD", "ref: refs/heads/main\n")
+			w.Put("crs/util/a/nested/deep/.git", "gitdir: ../../.git/modules/deep\n")
+			w.Put("crs/rules/.git", "gitdir: ../.git/worktrees/rules\n")
+			w.Put("empty/.git/HEAD", "ref: refs/heads/main\n")
+		}
 		// a symbolic link inside one root that points into another: the ancestors of the -d ARGUMENT count, not those of the link's target
 		w.Links = map[string]string{"crs/linked": "../other/util/a", "crs/util/dangling": "../../nowhere"}
 		type place struct{ cwd, dir, root string }
